@@ -115,42 +115,42 @@ variable (n b i j : Nat) (q : HashParts) (hn : 2 ≤ n) (hn2 : n ≤ 4294967296)
 include hn hn2 hb hi hj
 set_option linter.unusedSimpArgs false
 
-set_option maxHeartbeats 3200000 in
+set_option maxHeartbeats 400000 in
 theorem rev_S : nbAt n b ((i : Int) + (-1)) ((j : Int) + (-1)) = some q → RevOK n b i j S q := by
   rev_tac n b i j q S ((i : Int) + (-1)) ((j : Int) + (-1)) hb hi hj hn
     (fun b => nbZ n b _ _ _ _ = some q → RevOK n b i j S q)
 
-set_option maxHeartbeats 3200000 in
+set_option maxHeartbeats 400000 in
 theorem rev_SE : nbAt n b ((i : Int) + (0)) ((j : Int) + (-1)) = some q → RevOK n b i j SE q := by
   rev_tac n b i j q SE ((i : Int) + (0)) ((j : Int) + (-1)) hb hi hj hn
     (fun b => nbZ n b _ _ _ _ = some q → RevOK n b i j SE q)
 
-set_option maxHeartbeats 3200000 in
+set_option maxHeartbeats 400000 in
 theorem rev_E : nbAt n b ((i : Int) + (1)) ((j : Int) + (-1)) = some q → RevOK n b i j E q := by
   rev_tac n b i j q E ((i : Int) + (1)) ((j : Int) + (-1)) hb hi hj hn
     (fun b => nbZ n b _ _ _ _ = some q → RevOK n b i j E q)
 
-set_option maxHeartbeats 3200000 in
+set_option maxHeartbeats 400000 in
 theorem rev_SW : nbAt n b ((i : Int) + (-1)) ((j : Int) + (0)) = some q → RevOK n b i j SW q := by
   rev_tac n b i j q SW ((i : Int) + (-1)) ((j : Int) + (0)) hb hi hj hn
     (fun b => nbZ n b _ _ _ _ = some q → RevOK n b i j SW q)
 
-set_option maxHeartbeats 3200000 in
+set_option maxHeartbeats 400000 in
 theorem rev_NE : nbAt n b ((i : Int) + (1)) ((j : Int) + (0)) = some q → RevOK n b i j NE q := by
   rev_tac n b i j q NE ((i : Int) + (1)) ((j : Int) + (0)) hb hi hj hn
     (fun b => nbZ n b _ _ _ _ = some q → RevOK n b i j NE q)
 
-set_option maxHeartbeats 3200000 in
+set_option maxHeartbeats 400000 in
 theorem rev_W : nbAt n b ((i : Int) + (-1)) ((j : Int) + (1)) = some q → RevOK n b i j W q := by
   rev_tac n b i j q W ((i : Int) + (-1)) ((j : Int) + (1)) hb hi hj hn
     (fun b => nbZ n b _ _ _ _ = some q → RevOK n b i j W q)
 
-set_option maxHeartbeats 3200000 in
+set_option maxHeartbeats 400000 in
 theorem rev_NW : nbAt n b ((i : Int) + (0)) ((j : Int) + (1)) = some q → RevOK n b i j NW q := by
   rev_tac n b i j q NW ((i : Int) + (0)) ((j : Int) + (1)) hb hi hj hn
     (fun b => nbZ n b _ _ _ _ = some q → RevOK n b i j NW q)
 
-set_option maxHeartbeats 3200000 in
+set_option maxHeartbeats 400000 in
 theorem rev_N : nbAt n b ((i : Int) + (1)) ((j : Int) + (1)) = some q → RevOK n b i j N q := by
   rev_tac n b i j q N ((i : Int) + (1)) ((j : Int) + (1)) hb hi hj hn
     (fun b => nbZ n b _ _ _ _ = some q → RevOK n b i j N q)
